@@ -681,6 +681,13 @@ def build(repo, canary=False, probes=None, part='main'):
             A.text(type_spec_impls(T), 'spec impls for the newtype')
         for mm in re.finditer(r'const (\w+_WEIGHT): usize = \d+;', m.src.text):
             A.item(m.src.item(r'const %s: usize' % mm.group(1), name=mm.group(1)))
+        if getattr(m, 'delta_fields', None):
+            # the model keeps unapplied conclusions in a ModelDelta field: the struct and its constructor (real text) are part of the assembly
+            A.item(m.src.item(r'struct ModelDelta\s*\{', name='ModelDelta'))
+            md = m.src.item(r'impl ModelDelta\s*\{', name='ModelDelta')
+            A.text(md.header(), 'impl ModelDelta header (from the emitted text)')
+            A.item(m.src.fn('new', within=md, name='%s::ModelDelta::new' % m.name.lower()))
+            A.text('}\n', 'impl close')
         A.item(m.struct)
         A.text(m.impl.header(), 'impl header of the model (from the emitted text)')
         A.text(G.ghost_impl(m), 'GENERATED ghost accessors and representation invariant')
